@@ -90,6 +90,8 @@ struct PolyOp {
         else if (op == "invmodpowx") P.invmodpowx(A(0), A(1), Degree(s));
         else if (op == "power_compose") P.power_compose(A(0), A(1), (uint64_t) s);
         else if (op == "ratrecon") { bool b = P.ratrecon(A(0), A(1), A(2), A(3), Degree(s)); ret = b ? "1" : "0"; }   // (n, d, p, m)
+        else if (op == "ratreconcheck") { bool b = P.ratreconcheck(A(0), A(1), A(2), A(3), Degree(s)); ret = b ? "1" : "0"; }
+        else if (op == "ratrecon.f") { bool b = P.ratrecon(A(0), A(1), A(2), A(3), Degree(s), x.size() > 1 && x[1] == "1"); ret = b ? "1" : "0"; }
         else if (op == "inv") P.inv(A(0), A(1));
         else if (op == "shift") P.shift(A(0), A(1), (int) s);
         else if (op == "maxpy.s") P.maxpy(A(0), c, A(1), A(2));
@@ -141,12 +143,17 @@ template <class GF> static std::string goGF(const Case& c) {
     return run_two<E, IOW<E> >(c, op);
 }
 static std::string goExt(const Case& c) {
-    static std::unique_ptr<Base> bas; static std::unique_ptr<Ext> cur; static std::string curp;
-    if (!cur || curp != c.param) {
+    // one Extension per parameter for the whole run (its irreducible polynomial is drawn at random at construction and
+    // is reported once through "info": it must not change afterwards)
+    static std::map<std::string, std::pair<std::shared_ptr<Base>, std::shared_ptr<Ext> > > doms;
+    if (!doms.count(c.param)) {
         long p, k; split_param(c.param, p, k);
-        cur.reset(); bas.reset(new Base((int32_t) p)); cur.reset(new Ext(*bas, (Ext::Residu_t) k)); curp = c.param;
+        std::shared_ptr<Base> b(new Base((int32_t) p));
+        doms[c.param] = std::make_pair(b, std::shared_ptr<Ext>(new Ext(*b, (Ext::Residu_t) k)));
     }
+    std::shared_ptr<Base> bas = doms[c.param].first; std::shared_ptr<Ext> cur = doms[c.param].second;
     g_base = bas.get();
+    if (c.op == "info") return "INFO " + IOP::show(cur->irreducible());      // the modulus polynomial the model needs
     if (is_div_op(c.op)) { RingDivOp<Ext> op(*cur, c.op); return run_two<Ext::Element, IOP>(c, op); }
     RingOp<Ext> op(*cur, c.op);
     return run_two<Ext::Element, IOP>(c, op);
